@@ -103,6 +103,9 @@ class Run:
             json.dump(ev, f, indent=1, default=_jd)
         for key, (n, what) in self.known_hits.items():
             print(f"KNOWN-FINDING: property={self.pid} {key}: {what} ({n} cases this run)")
+        os.makedirs(os.path.join(VERIF, "work"), exist_ok=True)
+        with open(os.path.join(VERIF, "work", f"{self.pid}_{self.tier}_violations.json"), "w") as f:
+            json.dump([{"what": w, "tags": t} for w, _, t in self.violations], f, indent=1, default=_jd)
         if self.violations:
             rd = os.path.join(VERIF, "replays", self.pid)
             os.makedirs(rd, exist_ok=True)
